@@ -94,9 +94,9 @@ Vec(v) ==
                    IN /\ Less(s1, P.q) /\ Mod(Add(Add(s1, Num(hk[1])), Mul(Add(OfInt(77), PowL(P)), e)), P.q) = hk[2]
                       /\ (e = Zero => s1 = SubMod(hk[2], Mod(Num(hk[1]), P.q), P.q))
 NVec == 31
-\* quick: G.8 (v18), G.9 and G.10 accepted (v19, v20), G.10 reproduced (v23), the rejections decided without the point V
-\* (v28), the boundary keys (v31); the two evaluations of V compared, G.9 reproduced and the rejections by hash: thorough
-Sel == IF Quick THEN (1..NVec) \ {21, 22, 24, 25, 26, 27, 29, 30} ELSE 1..NVec
+\* quick: G.8 (v18), G.9 accepted (v19), G.10 reproduced (v23), the rejections decided without the point V (v28), the
+\* boundary keys (v31); G.10 accepted, G.9 reproduced, the two evaluations of V compared, the rejections by hash: thorough
+Sel == IF Quick THEN (1..NVec) \ {20, 21, 22, 24, 25, 26, 27, 29, 30} ELSE 1..NVec
 VARIABLES phase, v, ok
 Init == phase = 0 /\ v = 0 /\ ok = TRUE
 Next == \/ phase = 0 /\ phase' = 1 /\ v' \in Sel /\ ok' = TRUE
